@@ -345,6 +345,11 @@ class C15(Check):
                                        'method': 'GET', 'ae': rng.choice([0, 0, 2, 4, 5])} for _ in range(n)],
                             'granularity': gran, 'order': order,
                             'preempts': sorted([sch.randint(1, hi), sch.choice(['demote'] + names_t)] for _ in range(sch.randint(1, 8)))})
+                if 'stats' in stack and sch.random() < 0.5:
+                    # meanwhile the operator reads or resets the statistics (the stats pages are mounted in the application
+                    # with the middlewares only; their own answers are not compared with anything)
+                    pth = sch.choice(['/_st/reset', '/_st/reset', '/_st/'])
+                    ops[-1]['batch'][sch.randrange(n)] = {'path': pth, 'method': 'POST' if pth.endswith('reset') else 'GET', 'ae': 0, 'operator': True}
         return {'world': 'twin', 'seed': seed, 'config': {'stack': stack}, 'ops': ops}
 
     def extra_plans(self, tier, base_seed):
@@ -385,7 +390,8 @@ class C15(Check):
             sm.patch(sc, 'time', TimeProxy(clock))
             try:
                 bare = Application(routes())
-                full = Application(routes(), middlewares=[POOL[n]() for n in stack_names])
+                full = Application(routes() + ([('/_st/', cstats.create_stats_app())] if 'stats' in stack_names else []),
+                                   middlewares=[POOL[n]() for n in stack_names])
             except Exception as e:
                 res.violate(K + 'setup-failed:%s' % type(e).__name__, '%r stack=%r' % (e, stack_names))
                 return res
@@ -542,6 +548,9 @@ class C15(Check):
                     ok = True
                     for k, r in enumerate(reqs):
                         ae, accepts = AES[r['ae']]
+                        if r.get('operator'):
+                            res.probe('operator-resets-statistics-during-requests')
+                            continue
                         if not judge(alone[k], got[k], r, step, ae, accepts):
                             ok = False
                             break
